@@ -22,6 +22,9 @@ def build_cases(tier):
     add([1], [1], 0, 0, 7); add([2, 0], [0, 1], 3, 1, 12)
     # tables large enough that the kilobyte of slack in the estimate does not hide a missing term
     add([2], [500], 0, 0, 1); add([1, 1], [36, 5], 0, 0, 0); add([1, 1], [36, 5], 2, 1, 2); add([1, 1], [36, 5], 3, 1, 0); add([1, 0, 1], [8, 7, 2], 2, 2, 1)
+    # convolution in a dimension of order >= 1 with many coefficients across the other axes: a shortfall of order*(n-1) rows of the convolved axis must exceed the slack
+    add([3, 1], [14, 196], 4, 0, 1); add([2, 2], [100, 10], 5, 1, 0); add([1, 2, 1], [3, 20, 14], 3, 2, 2)
+    if tier != 'quick': add([3, 1], [14, 196], 8, 0, 0); add([1, 4], [150, 6], 6, 1, 3); add([2, 1, 0, 1], [4, 6, 5, 3], 4, 0, 1)
     add([1], [0], 0, 0, 50)         # many auxiliary keys: their count must come from the primary header
     if tier != 'quick': add([1], [0], 2, 0, 50); add([1, 0], [1, 1], 3, 1, 50)
     return cases
